@@ -258,7 +258,8 @@ def run_one(seed, tier, opts, prop):
     case = {'config': cfg, 'ops': [ops[i]], 'faults': faults,
             'sched_seeds': [sched_seeds[i]]}
     mini, evals = (minimise(case, v['oracle'])
-                   if len(out_v) < MAX_MINIMISED_PER_RUN else (case, 0))
+                   if len(out_v) < (1 if kernel.violation_flag_set() else MAX_MINIMISED_PER_RUN)
+                   else (case, 0))
     mlog, mv, _, mchoices = execute(mini['config'], mini['ops'], mini['faults'],
                                     mini['sched_seeds'])
     mv = [x for x in mv if x['oracle'] == v['oracle']] or [v]
